@@ -150,11 +150,18 @@ def run_layout(ctx, rng, node, fields, maxbits, only=None, via="add_variable"):
             continue
         ctx.seen("offset_x_type", f"{offs[i]:02d}:{'s' if dt in R.SIGNED else 'u' if dt in R.UNSIGNED else 'b' if dt == R.BOOLEAN else 'r'}")
         for v in field_values(rng, dt, ln, maxbits):
-            for k, init in enumerate(inits):
-                pmap.data = bytearray(init)
-                case = dict(case0, field=i, value=v, init=init)
+            for k, init in enumerate(inits + [inits[rng.randrange(3)]]):
+                if k < 3:
+                    pmap.data = bytearray(init)
+                else:
+                    # the frame content arrives the way frames do: through the reception handler
+                    pmap.on_message(pmap.cob_id, bytearray(init), 1.0 + k)
+                    if bytes(pmap.data) != init:
+                        ctx.violation("pdo-received-frame-not-stored", f"on_message({init.hex()}) left map data {bytes(pmap.data).hex()}", dict(case0, init=init))
+                        continue
+                case = dict(case0, field=i, value=v, init=init, arrived="assigned" if k < 3 else "received")
                 sig = (R.NAMES[dt], offs[i] % 8, offs[i] % 8 == 0, "full" if ln == R.width(dt) else "partial",
-                       vclass(dt, ln, v), ("zero", "ones", "random")[k])
+                       vclass(dt, ln, v), ("zero", "ones", "random", "received")[k])
                 ctx.case(sig, nontrivial=len(fields) > 1 or offs[i] > 0)
                 try:
                     var.raw = v
